@@ -74,6 +74,17 @@ RECURSIVE NWords(_)
 NWords(n) == IF n = 0 THEN {<<>>} ELSE {<<>>} \cup {Append(w, k) : w \in NWords(n - 1), k \in DOMAIN NumSym}
 NVal(w) == LET J[i \in 0..Len(w)] == IF i = 0 THEN "" ELSE J[i - 1] \o NumSym[w[i]] IN J[Len(w)]
 NumChunks == LET q == SetToSeq(NWords(L)) IN {SubSeq(q, c * 20 + 1, IF (c + 1) * 20 > Len(q) THEN Len(q) ELSE (c + 1) * 20) : c \in 0..((Len(q) - 1) \div 20)}
+\* well-formed numerals outside the range of a decimal / of an integer, huge exponents, long digit strings: isnum and num must agree on them too
+ExtremeNums == << "1e309", "-1e999", "2e308", "1.7976931348623157e308", "1e-400", "-1e-400", "4.9e-324", "1e308", "9223372036854775807", "9223372036854775808",
+                  "-9223372036854775809", "99999999999999999999999999999999999999999", "0.000000000000000000000000000000000000000000000001", "1e", "1e+", "e5", ".e5", "0x", "0x1F", "0x1G",
+                  "inf", "nan", "-inf", "Infinity", "1_000", "1,5", "١", "1 2", "+-1", "--1" >>
+ForExtreme == LET F[j \in 0..Len(ExtremeNums)] == IF j = 0 THEN <<>> ELSE
+                    F[j - 1] \o << Step("isnum(\"" \o ExtremeNums[j] \o "\")"),
+                                   [op |-> "expr", ctx |-> 0, text |-> "num(\"" \o ExtremeNums[j] \o "\")", ok_iff_true |-> 2 + 5 * (j - 1)],
+                                   Step("int(\"" \o ExtremeNums[j] \o "\")"),
+                                   Step("isnum(raw(\"" \o ExtremeNums[j] \o "\"))"),
+                                   [op |-> "expr", ctx |-> 0, text |-> "num(raw(\"" \o ExtremeNums[j] \o "\"))", ok_iff_true |-> 5 + 5 * (j - 1)] >>
+              IN F[Len(ExtremeNums)]
 ForNumStr(ws) == \* pairs: isnum(s), then num(s) / int(s) whose success must match
   LET F[j \in 0..Len(ws)] == IF j = 0 THEN <<>> ELSE
         F[j - 1] \o << Step("isnum(\"" \o NVal(ws[j]) \o "\")"),
@@ -114,13 +125,14 @@ ForBytes(bs) ==
   \o << W("Y", VRaw(bs)) >>
 
 VARIABLE p
-Init == p \in {[k |-> "S", w |-> w] : w \in Words(L)} \cup {[k |-> "N", ws |-> ws] : ws \in NumChunks} \cup {[k |-> "C"]}
+Init == p \in {[k |-> "S", w |-> w] : w \in Words(L)} \cup {[k |-> "N", ws |-> ws] : ws \in NumChunks} \cup {[k |-> "C"], [k |-> "X"]}
               \cup {[k |-> "B", bs |-> bs] : bs \in BWords(L + 1)}
 Next == UNCHANGED p
 Scenario(q) ==
   CASE q.k = "S" -> [prop |-> "C10", key |-> "S", steps |-> <<[op |-> "exec", ctx |-> 0, free |-> TRUE, text |-> "X = " \o LitOf(q.w) \o ";"]>> \o ForString(q.w)]
     [] q.k = "N" -> [prop |-> "C10", key |-> "N", steps |-> <<[op |-> "exec", ctx |-> 0, free |-> TRUE, text |-> "nop;"]>> \o ForNumStr(q.ws)]
     [] q.k = "B" -> [prop |-> "C10", key |-> "B", steps |-> <<[op |-> "exec", ctx |-> 0, free |-> TRUE, text |-> Render(BuildY(q.bs))]>> \o ForBytes(q.bs)]
+    [] q.k = "X" -> [prop |-> "C10", key |-> "X", steps |-> <<[op |-> "exec", ctx |-> 0, free |-> TRUE, text |-> "nop;"]>> \o ForExtreme]
     [] q.k = "C" -> [prop |-> "C10", key |-> "C", steps |-> <<[op |-> "exec", ctx |-> 0, free |-> TRUE, text |-> "nop;"]>> \o Conv]
 Emit == PrintT("@@S " \o ToJson(Scenario(p)))
 =============================================================================
